@@ -37,6 +37,8 @@ pub struct Pkt {
     pub t: u64,
     pub frames: Vec<Frame>,
     pub payload_len: usize,
+    /// hash of the cleartext payload bytes
+    pub payload_hash: u64,
     /// the reference parser could not parse the payload the endpoint produced/accepted
     pub parse_error: Option<String>,
 }
@@ -430,6 +432,8 @@ pub struct Ctx {
     pub clients_running: usize,
     /// virtual time at which the workload ended (supervisor)
     pub workload_done_at: Option<u64>,
+    /// number of connections (both sides counted) whose handshake is confirmed
+    pub confirmed: usize,
 }
 
 #[derive(Clone, Debug)]
@@ -521,6 +525,7 @@ impl World {
                 client_live: BTreeMap::new(),
                 clients_running: 0,
                 workload_done_at: None,
+                confirmed: 0,
             },
             mons,
         }))
@@ -621,6 +626,9 @@ impl World {
         match &e {
             Evt::Metrics(_) | Evt::PacketSent { .. } | Evt::AckRange { .. } => {}
             other => self.ctx.log(|| format!("ep{ep} c{conn} EV {other:?}")),
+        }
+        if let Evt::Handshake { status: "confirmed" } = &e {
+            self.ctx.confirmed += 1;
         }
         let World { ctx, mons } = self;
         mons.on_evt(ctx, ep, conn, t, &e);
